@@ -121,6 +121,10 @@ func (r *run) oracle(sp *hdrSpec, h *types.Header, m *mHeader, accepted bool, sc
 	if !gok || uint64(len(have)) < want {
 		class := "quorum:unclassified"
 		switch {
+		case cl.hasClaim && e.writer[cl.claimed] == "rejected":
+			// never a known finding: the consulted peer set was put there by a header that
+			// verifyHeader itself rejected
+			class = "quorum:peer-set-written-by-rejected-header"
 		case cl.overwritten:
 			class = "quorum:peer-map-overwritten"
 		case cl.stale:
